@@ -304,3 +304,11 @@ impl DwarfRegistry {
         regions
     }
 }
+
+#[cfg(feature = "verif")]
+impl DwarfRegistry {
+    /// verification hook: the `mappings` table (file -> load offset)
+    pub fn verif_mappings(&self) -> Vec<(PathBuf, usize)> {
+        self.mappings.iter().map(|(p, o)| (p.clone(), *o)).collect()
+    }
+}
